@@ -393,6 +393,8 @@ class Verifier(Engine):
         st.env[seqname] = itv
         n = self.seq_len(itv)
         st.env[idxname] = V(z3.IntVal(0), INT)
+        outer_entry = st.loop_entry
+        st.loop_entry = st.snapshot()
         # 1. invariants hold on entry
         for h in spec.hints_entry:
             self.hint(st, h, f"{tag}.hint_entry")
@@ -444,6 +446,9 @@ class Verifier(Engine):
                 after.append(Outcome("normal", o.st))
             else:
                 after.append(o)
+        for o in after:
+            o.st.loop_entry = outer_entry
+        st.loop_entry = outer_entry
         return outs + after
 
     def bind_loop_target(self, target: ast.expr, elem: V, idx_mode: str, i: Any) -> dict[str, V]:
@@ -487,7 +492,7 @@ class Verifier(Engine):
         src = open(path, encoding="utf-8").read()
         self.sources[relpath] = (src, ast.parse(src))
 
-    def find_function(self, relpath: str, qualname: str) -> ast.FunctionDef:
+    def find_function(self, relpath: str, qualname: str, decorator: str = "") -> ast.FunctionDef:
         _, mod = self.sources[relpath]
         parts = qualname.split(".")
         body: list[ast.stmt] = mod.body
@@ -495,7 +500,7 @@ class Verifier(Engine):
         for i, p in enumerate(parts):
             cands = [d for d in body if isinstance(d, (ast.FunctionDef, ast.ClassDef)) and d.name == p]
             if i == len(parts) - 1:
-                want = getattr(self, "want_decorator", {}).get(qualname)
+                want = decorator or None
                 cands2 = []
                 for d in cands:
                     decs = [ast.unparse(x) for x in getattr(d, "decorator_list", [])]
@@ -513,7 +518,7 @@ class Verifier(Engine):
         return node
 
     def bind_signature(self, relpath: str, c: Contract, cls: Optional[str] = None) -> ast.FunctionDef:
-        fd = self.find_function(relpath, c.name)
+        fd = self.find_function(relpath, c.source_name or c.name, c.decorator)
         params: list[tuple[str, Ty]] = []
         defaults: dict[str, ast.expr] = {}
         args = fd.args.args
@@ -521,8 +526,8 @@ class Verifier(Engine):
         for a, d in zip(args, dflt):
             if a.arg in c.params:
                 ty = self.tenv.parse(c.params[a.arg])
-            elif a.arg == "self" and "." in c.name:
-                ty = self.tenv.records[c.name.split(".")[0]]
+            elif a.arg == "self" and "." in (c.source_name or c.name):
+                ty = self.tenv.records[(c.source_name or c.name).split(".")[0]]
             elif a.annotation is not None:
                 ty = self.tenv.parse(a.annotation)
             else:
